@@ -32,7 +32,9 @@ pub fn args_map() -> (String, HashMap<String, String>) {
 
 fn main() {
     // a panic in the code under test is data: keep the default hook quiet
-    std::panic::set_hook(Box::new(|_| {}));
+    if std::env::var("VH_PANIC").is_err() {
+        std::panic::set_hook(Box::new(|_| {}));
+    }
     let (cmd, a) = args_map();
     let code = match cmd.as_str() {
         "record-sessions" => sessions::record(&a),
